@@ -28,10 +28,19 @@ structure Entry where
 
 abbrev Tab := List Entry
 
+/-- the id the EMPTY text gets where it shows up as a VALUE of the persisted-query cache (`Add(h, "")`, a lookup
+answered `""`, final contents `h>-`). No request can carry it as its text (an empty query is `none`, the hash-only
+branch), so no history ever sends it together with a hash: the Spec rejects every trace in which it is registered,
+returned or run. Texts outside the table (`?<hex>`) get `1000000 + length`, as in `parseText`. -/
+def emptyId : Nat := 999999
+
+/-- SHA-256 of the empty string -/
+def emptySha : String := "e3b0c44298fc1c149afbf4c8996fb92427ae41e4649b934ca495991b7852b855"
+
 def hashOf (tb : Tab) (t : Nat) : String :=
   match tb.find? (·.id == t) with
   | some e => e.sha
-  | none => "?unknown-text-" ++ toString t
+  | none => if t == emptyId then emptySha else "?unknown-text-" ++ toString t
 
 def validOf (tb : Tab) (t : Nat) : Bool :=
   match tb.find? (·.id == t) with
@@ -69,6 +78,14 @@ def parseText (s : String) : Option (Option Nat) :=
   if s == "-" then some none
   else if s.startsWith "?" then some (some (1000000 + s.length))   -- a text outside the table
   else s.toNat?.map some
+
+/-- a VALUE held / returned / stored by the persisted-query cache as the harness prints it: a text id, `-` (the empty
+text) or `?<hex>` (a text outside the table). Total on everything `tid` of the harness can print, so that a trace
+in which the cache holds something no request sent is JUDGED by the Spec instead of being unparsable. -/
+def parseVal (s : String) : Option Nat :=
+  if s == "-" then some emptyId
+  else if s.startsWith "?" then some (1000000 + s.length)
+  else s.toNat?
 
 def parseInt (s : String) : Option Int :=
   if s.startsWith "-" then (dropS s 1).toNat?.map (fun n => -(n : Int)) else s.toNat?.map (fun n => (n : Int))
@@ -224,8 +241,8 @@ def parseOp (tb : Tab) (s : String) : Option (Op Nat String) :=
     | none => none
     | some h =>
       if s.startsWith "G" then
-        if v == "miss" then some (.get h none) else (parseText v).bind (fun t => t.map (fun t => .get h (some t)))
-      else if s.startsWith "A" then (parseText v).bind (fun t => t.map (fun t => .add h t))
+        if v == "miss" then some (.get h none) else (parseVal v).map (fun t => .get h (some t))
+      else if s.startsWith "A" then (parseVal v).map (fun t => .add h t)
       else none
   | _ => none
 
@@ -254,7 +271,7 @@ def parseContents (tb : Tab) (s : String) : Except String (List (String × Nat))
   (s.splitOn " ").mapM (fun p =>
     match p.splitOn ">" with
     | [h, t] =>
-      match parseHash tb h, t.toNat? with
+      match parseHash tb h, parseVal t with
       | some h, some t => .ok (h, t)
       | _, _ => .error p
     | _ => .error p)
